@@ -64,6 +64,7 @@ theorem good_lpc (cfg : SubCfg) (xs : List Int) (bps : Nat) (log : List OEvent) 
     (hs : Strict.LpcShape cfg xs bps log s) : SubGood K xs.length bps s := by
   obtain ⟨coefs, shift, precision, errors, prc, hmem, hce, hsearch, rfl⟩ := hs
   obtain ⟨hc1, hc32, hp1, hp15, hs0, hs15, hcr⟩ := hlog _ hmem
+  replace hc32 : coefs.length ≤ 32 := by unfold maxLpcOrder at hc32; omega
   obtain ⟨hel, hef, _⟩ := computeError_wrap coefs shift.toNat xs errors hce
   have hwf := Strict.residual_wf_of_search errors coefs.length cfg.maxP prc hef
     (by rw [hel]; omega) (by rw [hel]; exact hlen) hmax hsearch
